@@ -236,9 +236,11 @@ func runC08(r *R) {
 	ctxSig := kindSig + "/" + which
 	r.Sample(map[string]any{"provider": conf, "entries": entries, "consumers": sp.Cons, "engine": sp.Engine, "read_chunk": sp.Chunk, "layout": desc, "bound": bound, "cancel_after": sp.CancelAt})
 	plans := map[string]simfs.Plan{}
-	if mf := c08MainFile(files); mf != "" && sp.Chunk > 0 {
+	eofWithData := w.Draw(5) == 0 // the read that delivers the file's last bytes reports io.EOF in the same call
+	if mf := c08MainFile(files); mf != "" && (sp.Chunk > 0 || eofWithData) {
 		p := simfs.NoPlan()
 		p.ReadChunk = sp.Chunk
+		p.EOFWithData = eofWithData
 		if w.Draw(3) == 0 {
 			p.ZeroReads = []int{w.Draw(5), 5 + w.Draw(20)}
 		}
